@@ -62,9 +62,12 @@ def make_ipdb(nmax):
             en.must_hold(core.sint(sub) == START + known[0], "ipv4-mapping", case, detail="a known original got a different substitute")
             en.must_hold(len(obj._ip_db) == n, "ipv4-mapping", case, detail="database grew for a known original")
         else:
-            en.must_hold(core.sint(sub) == START + n, "ipv4-mapping", case, detail="a new original did not get the next unused substitute (it shares one, or is left as it is)")
-            got = obj._ip_db.get(START + n)
-            en.must_hold(got is not None and core.sint(got) == addr, "ipv4-mapping", case, detail="the new pair is not in the database")
+            # statement level: a substitute no other original has (which one is the implementation's choice), recorded with its original
+            subi = core.sint(sub)
+            for i in range(n):
+                en.must_hold(subi != START + i, "ipv4-mapping", case, detail="a new original shares the substitute of another original")
+            pairs = [(k, v) for k, v in obj._ip_db.items() if not any(isinstance(k, int) and k == START + i for i in range(n))]
+            en.must_hold(len(pairs) == 1 and core.sint(pairs[0][0]) == subi and core.sint(pairs[0][1]) == addr, "ipv4-mapping", case, detail="the new pair is not in the database")
         for i, o in enumerate(origs):
             en.must_hold(core.sint(obj._ip_db.get(START + i, -1)) == o, "ipv4-mapping", case, detail="an existing pair was changed")
         rep = obj.mapping()
@@ -338,7 +341,7 @@ def _native(case):
             if sub != START + case["db"].index(case["addr"]) or len(obj._ip_db) != n:
                 bad.append("known original %s got substitute %s" % (_i2ip(case["addr"]), _i2ip(sub)))
         else:
-            if sub != START + n or obj._ip_db.get(START + n) != case["addr"]:
+            if sub in [START + i for i in range(n)] or obj._ip_db.get(sub) != case["addr"]:
                 bad.append("new original %s got substitute %s (database %s)" % (_i2ip(case["addr"]), _i2ip(sub), [_i2ip(k) for k in obj._ip_db]))
         if len(obj.mapping()) != len(obj._ip_db):
             bad.append("mapping() does not list the database")
